@@ -21,6 +21,44 @@ NOT_DECIDED = ["bounded cold/warm/resized relational run (bit-identical results)
 SCOPE = FILES
 
 
+def key_obligations(obligations, details):
+    """
+    lru_cache keys compare with ==, and True == 1, False == 0 (equal hashes).  A key component that is a tuple of bools for one
+    configuration and a tuple of ints for another lets two configurations share an entry.  Obligation per (memoised function,
+    argument): over harness runs that cover every way the callers build that argument (fermionic True / per-component tuples,
+    all symmetries, policies), the scalars inside it are never bools in one call and ints in another.
+    """
+    import contracts.c05 as C5, contracts.c02 as C2
+    units = []
+    for u in C5.units('quick'):
+        if u[0] in ('h_swap_gate', 'h_swap_gate_charge') and u[2].get('lt') == 1:
+            units.append(('contracts.c05',) + tuple(u))
+    seen = set()
+    for u in C2.units('quick'):
+        key = (u[0], u[2].get('sym'), u[2].get('policy'))
+        if u[0] in ('h_tensordot', 'h_add', 'h_vdot', 'h_trace', 'h_broadcast') and key not in seen and u[2].get('lt_a', u[2].get('lt', 1)) == 1:
+            seen.add(key)
+            units.append(('contracts.c02',) + tuple(u))
+    import contracts.c03 as C3
+    for u in C3.units('quick'):
+        if u[0] == 'h_fuse_hard' and u[2]['lt'] == 1 and u[2]['nd'] == 2:
+            units.append(('contracts.c03',) + tuple(u))
+    res = driver.run_units(units)
+    kinds = {}
+    for r in res:
+        for k, v in (r.get('cache_key_types') or {}).items():
+            kinds.setdefault(k, set()).update(v)
+    for k, v in sorted(kinds.items()):
+        oid = f"{k.replace('#', '::K ')} scalars of one kind"
+        bad = 'bool' in v and 'int' in v
+        obligations[oid] = 'failed' if bad else 'proved'
+        details[oid] = f"observed scalar kinds in this key component over {len(units)} harness runs: {sorted(v)}" + \
+            (" -- bools and ints mix: True == 1 / False == 0 collide in the cache key" if bad else '')
+    oid = "K::key-components-observed"
+    obligations[oid] = 'proved' if len(kinds) >= 20 else 'undecided'
+    details[oid] = f"{len(kinds)} (function, argument) key components observed"
+
+
 def run_check(args, seed):
     t0 = time.time()
     root = driver.repo_root()
@@ -108,6 +146,8 @@ def run_check(args, seed):
                     oid = f"yastn.tensor._control_lru:{fn.name}::{m} is memoised"
                     obligations[oid] = 'failed'
                     details[oid] = 'administered function is not decorated with lru_cache'
+    # ---- K: key adequacy, observed while the SMT packs interpret calls THROUGH the cache wrappers ----------------------
+    key_obligations(obligations, details)
     funcs = [f.key for f in cached_funcs]
     return finish(PROPERTY, args, seed, t0, obligations, details, funcs, ASSUMPTIONS, NOT_DECIDED, f"./check C16 --tier {args.tier}",
                   extra={'memoised_functions': len(cached_funcs), 'files_analysed': SCOPE})
